@@ -139,4 +139,188 @@ theorem k_checkStandardUPCEANChecksum_eq (s : List Nat) (hs : ∀ b ∈ s, b < 2
     have : ((last : Int) - 48) % 256 = (((last + 208) % 256 : Nat) : Int) := by omega
     simp [this]
 
+/-! ## Code 93: `code93ComputeChecksumIndex` (writer) and `code93CheckOneChecksum` (reader) -/
+
+/-- alphabet index of a byte, as the Go code computes it (`strings.Index(code93AlphabetString, string(b))`) -/
+def code93 (b : Nat) : Nat := (strIndexByte Gen.K10.tbl_code93AlphabetString (b : Int)).toNat
+
+/-- the byte is a Code 93 alphabet character -/
+def in93 (b : Nat) : Prop := 0 ≤ strIndexByte Gen.K10.tbl_code93AlphabetString (b : Int)
+
+theorem code93_cast {b : Nat} (h : in93 b) :
+    strIndexByte Gen.K10.tbl_code93AlphabetString (b : Int) = (code93 b : Int) := by
+  unfold code93 in93 at *; omega
+
+when_kernel Gzx.Gen.K10.code93ComputeChecksumIndex in
+theorem k_code93ComputeChecksumIndex_body (s : List Nat) (maxW : Int) (i : Nat) (h : i < (bytes s).length)
+    (st : Int × Int) :
+    Gen.K10.code93ComputeChecksumIndex_body1 (bytes s) maxW (i : Int) st =
+      g93 maxW (strIndexByte Gen.K10.tbl_code93AlphabetString (bytes s)[i]) st := by
+  unfold Gen.K10.code93ComputeChecksumIndex_body1
+  rw [idx_ofNat _ _ h]
+  simp only [tryC, g93]
+  by_cases c : st.1 + 1 > maxW <;> simp [c, Int.mul_comm]
+
+when_kernel Gzx.Gen.K10.code93ComputeChecksumIndex in
+/-- `code93ComputeChecksumIndex(contents, maxWeight)` = the model's `c93Check maxWeight` of the alphabet
+    indices, for every string over the Code 93 alphabet and every `maxWeight` -/
+theorem k_code93ComputeChecksumIndex_eq (s : List Nat) (hin : ∀ b ∈ s, in93 b) (maxW : Nat) :
+    Gen.K10.code93ComputeChecksumIndex (bytes s) (maxW : Int) =
+      .ok ((c93Check maxW (s.map code93) : Nat) : Int) := by
+  simp only [Gen.K10.code93ComputeChecksumIndex, len, bytes_length]
+  rw [loop_down1' (bytes s) (fun v st => g93 (maxW : Int) (strIndexByte Gen.K10.tbl_code93AlphabetString v) st)
+      s.length (by simp [bytes]) (k_code93ComputeChecksumIndex_body s maxW)
+      (by rw [tripDown_one]; omega) (by omega)]
+  rw [List.take_of_length_le (by simp [bytes]), bytes_reverse]
+  obtain ⟨w', hw'⟩ := foldC_g93 (ρ := Int) (strIndexByte Gen.K10.tbl_code93AlphabetString) code93 s.reverse
+    (fun b hb => code93_cast (hin b (by simpa using hb))) maxW 1 0
+  simp only [Int.natCast_one] at hw'
+  rw [hw']
+  simp only [Ctl.thenR, c93Check, List.map_reverse, Int.zero_add, tmod_natCast_emod]
+  congr 1
+
+when_kernel Gzx.Gen.K10.code93CheckOneChecksum in
+theorem k_code93CheckOneChecksum_body (s : List Nat) (maxW : Int) (i : Nat) (h : i < (bytes s).length)
+    (st : Int × Int) :
+    Gen.K10.code93CheckOneChecksum_body1 (bytes s) maxW (i : Int) st =
+      g93 maxW (strIndexByte Gen.K10.tbl_code93AlphabetString (bytes s)[i]) st := by
+  unfold Gen.K10.code93CheckOneChecksum_body1
+  rw [idx_ofNat _ _ h]
+  simp only [tryC, g93]
+  by_cases c : st.1 + 1 > maxW <;> simp [c, Int.mul_comm]
+
+when_kernel Gzx.Gen.K10.code93CheckOneChecksum in
+/-- `code93CheckOneChecksum(result, p, maxWeight)` fails (ChecksumException) iff the byte at `p` differs
+    from the alphabet character of `c93Check maxWeight` over the `p` characters before it -/
+theorem k_code93CheckOneChecksum_eq (s : List Nat) (p : Nat) (hp : p < s.length)
+    (hin : ∀ b ∈ s.take p, in93 b) (maxW : Nat) :
+    Gen.K10.code93CheckOneChecksum (bytes s) (p : Int) (maxW : Int) =
+      tryR (idx Gen.K10.tbl_code93Alphabet ((c93Check maxW ((s.take p).map code93) : Nat) : Int))
+        (fun t => .ok ((s[p] : Int) != t)) := by
+  simp only [Gen.K10.code93CheckOneChecksum]
+  rw [loop_down1' (bytes s) (fun v st => g93 (maxW : Int) (strIndexByte Gen.K10.tbl_code93AlphabetString v) st)
+      p (by simp [bytes]; omega) (k_code93CheckOneChecksum_body s maxW)
+      (by rw [tripDown_one]; omega) (by omega)]
+  rw [bytes_take, bytes_reverse]
+  obtain ⟨w', hw'⟩ := foldC_g93 (ρ := Bool) (strIndexByte Gen.K10.tbl_code93AlphabetString) code93 (s.take p).reverse
+    (fun b hb => code93_cast (hin b (by simpa using hb))) maxW 1 0
+  simp only [Int.natCast_one] at hw'
+  rw [hw']
+  have hi : idx (bytes s) (p : Int) = .ok (s[p] : Int) := by
+    rw [idx_ofNat _ _ (by simpa [bytes] using hp)]; simp [bytes]
+  simp only [Ctl.thenR, hi, tryR, c93Check, List.map_reverse, Int.zero_add, tmod_natCast_emod]
+  have e : ((c93SumRev maxW 1 (List.map code93 (List.take p s)).reverse : Nat) : Int) % 47 =
+      ((c93SumRev maxW 1 (List.map code93 (List.take p s)).reverse % 47 : Nat) : Int) := by omega
+  rw [e]
+  generalize idx Gen.K10.tbl_code93Alphabet _ = r
+  cases r with
+  | error e => rfl
+  | ok t => simp only; split <;> simp_all
+
+/-- the two inlined alphabets are the regenerated `code93AlphabetString` (the table C10's obligations
+    show to have 48 distinct characters, '*' last) -/
+theorem k_code93_tables :
+    Gen.K10.tbl_code93AlphabetString = Gen.K10.tbl_code93Alphabet ∧
+    Gen.K10.tbl_code93Alphabet.length = 48 := by decide
+
+/-- every alphabet position is found again by the index function (so `code93` inverts the alphabet) -/
+theorem k_code93_index_inverts :
+    (List.range 48).all (fun v => (Gen.K10.tbl_code93AlphabetString[v]?).any (fun b =>
+      strIndexByte Gen.K10.tbl_code93AlphabetString b == (v : Int))) = true := by decide +kernel
+
+/-! ## EAN-5 add-on: `extensionChecksum`, `determineCheckDigit` -/
+
+theorem digit_get {ds : List Nat} (hd : ∀ d ∈ ds, d < 10) (i : Nat) (h : i < (bytes (digitBytes ds)).length) :
+    ∃ v : Nat, v < 10 ∧ (bytes (digitBytes ds))[i] = ((v + 48 : Nat) : Int) := by
+  have h' : i < ds.length := by simpa [bytes, digitBytes] using h
+  exact ⟨ds[i], hd _ (List.getElem_mem h'), by simp [bytes, digitBytes]⟩
+
+when_kernel Gzx.Gen.K10.extensionChecksum in
+theorem k_extensionChecksum_body1 (ds : List Nat) (hd : ∀ d ∈ ds, d < 10)
+    (i : Nat) (h : i < (bytes (digitBytes ds)).length) (st : Int) :
+    Gen.K10.extensionChecksum_body1 (bytes (digitBytes ds)) (i : Int) st = gPlain (bytes (digitBytes ds))[i] st := by
+  obtain ⟨v, hv, e⟩ := digit_get hd i h
+  unfold Gen.K10.extensionChecksum_body1
+  rw [idx_ofNat _ _ h, e]
+  have e8 : ((2 : Int) ^ 8) = 256 := by decide
+  simp only [tryC, gPlain, wrap, e8]
+  try (congr 2; omega)
+
+when_kernel Gzx.Gen.K10.extensionChecksum in
+theorem k_extensionChecksum_body2 (ds : List Nat) (hd : ∀ d ∈ ds, d < 10)
+    (i : Nat) (h : i < (bytes (digitBytes ds)).length) (st : Int) :
+    Gen.K10.extensionChecksum_body2 (bytes (digitBytes ds)) (i : Int) st = gPlain (bytes (digitBytes ds))[i] st := by
+  obtain ⟨v, hv, e⟩ := digit_get hd i h
+  unfold Gen.K10.extensionChecksum_body2
+  rw [idx_ofNat _ _ h, e]
+  have e8 : ((2 : Int) ^ 8) = 256 := by decide
+  simp only [tryC, gPlain, wrap, e8]
+  try (congr 2; omega)
+
+when_kernel Gzx.Gen.K10.extensionChecksum in
+/-- `extensionChecksum(s)` of a digit string = the model's `ext5Checksum` (weights 3, 9, 3, 9 … from the right) -/
+theorem k_extensionChecksum_eq (ds : List Nat) (hd : ∀ d ∈ ds, d < 10) :
+    Gen.K10.extensionChecksum (bytes (digitBytes ds)) = .ok ((ext5Checksum ds : Nat) : Int) := by
+  by_cases hl : ds.length = 0
+  · have : ds = [] := List.length_eq_zero_iff.mp hl
+    subst this; rfl
+  have hlen : (bytes (digitBytes ds)).length = ds.length := by simp [bytes, digitBytes]
+  simp only [Gen.K10.extensionChecksum, len, hlen]
+  rw [loop_down2' (bytes (digitBytes ds)) gPlain (ds.length - 1) (by omega) (k_extensionChecksum_body1 ds hd)
+      (by rw [tripDown_two]; omega) (by omega)]
+  have e1 : ds.length - 1 = (digitBytes ds).length - 1 := by simp [digitBytes]
+  rw [bytes_take, bytes_reverse, e1, take_pred_reverse, digitBytes_reverse, digitBytes_tail, foldC2_gPlain_digits]
+  simp only [Ctl.thenR]
+  rw [loop_down2' (bytes (digitBytes ds)) gPlain ds.length (by omega) (k_extensionChecksum_body2 ds hd)
+      (by rw [tripDown_two]; omega) (by omega)]
+  rw [List.take_of_length_le (by omega), bytes_reverse, digitBytes_reverse, foldC2_gPlain_digits]
+  simp only [ext5Checksum_eq]
+  have e : (((0 : Int) + (evens ds.reverse.tail : Nat)) * 3 + (evens ds.reverse : Nat)) * 3 =
+      ((3 * evens ds.reverse + 9 * evens ds.reverse.tail : Nat) : Int) := by omega
+  rw [e, tmod_natCast_emod]
+  congr 1
+
+/-- the inlined `checkDigitEncodings` as naturals -/
+def ean5Table : List Nat := Gen.K10.tbl_checkDigitEncodings.map Int.toNat
+
+theorem ean5Table_cast : Gen.K10.tbl_checkDigitEncodings = ean5Table.map Int.ofNat := by decide
+
+when_kernel Gzx.Gen.K10.determineCheckDigit in
+theorem k_determineCheckDigit_body (lg : Nat) (i : Nat) (h : i < ean5Table.length) :
+    Gen.K10.determineCheckDigit_body1 (lg : Int) (i : Int) () =
+      if ean5Table[i] = lg then .ret ((i : Int), false) else .next () := by
+  unfold Gen.K10.determineCheckDigit_body1
+  rw [ean5Table_cast, idx_ofNat _ _ (by simpa using h)]
+  simp only [tryC, List.getElem_map, Int.ofNat_eq_natCast]
+  by_cases c : ean5Table[i] = lg
+  · simp [c]
+  · have : ¬ (lg : Int) = (ean5Table[i] : Int) := by omega
+    simp [c, this]
+
+when_kernel Gzx.Gen.K10.determineCheckDigit in
+/-- `determineCheckDigit(lgPatternFound)` = the model's table scan over the table the function reads
+    (NotFound iff no entry matches); `gen_ean5_parity_is_standard` (Obligations/C10) says which table -/
+theorem k_determineCheckDigit_eq (lg : Nat) :
+    Gen.K10.determineCheckDigit (lg : Int) =
+      .ok (match determineCheckDigit5 ean5Table lg with
+           | .ok d => ((d : Int), false)
+           | .error _ => (0, true)) := by
+  have hl : ean5Table.length = 10 := by decide
+  simp only [Gen.K10.determineCheckDigit]
+  have := loop_scan ean5Table lg (Gen.K10.determineCheckDigit_body1 (lg : Int)) (k_determineCheckDigit_body lg)
+    10 0 (by omega)
+  have e0 : (((0 : Nat) : Int)) = 0 := rfl
+  have et : tripUp 0 10 1 = 10 := by decide
+  rw [e0] at this
+  rw [et, this]
+  simp only [determineCheckDigit5, scan10, List.drop_zero, hl, Nat.lt_irrefl, if_false]
+  cases indexOf? lg (List.take 10 ean5Table) with
+  | none => rfl
+  | some d => simp [Ctl.thenR]
+
+/-- the table `determineCheckDigit` reads is the regenerated `checkDigitEncodings` of C10 -/
+theorem k_ean5_table_is_generated :
+    some ean5Table = (Gen.K10.tbl_checkDigitEncodings.mapM (fun n : Int => if n ≥ 0 then some n.toNat else none)) := by
+  decide
+
 end Gzx.Obligations.K10
